@@ -56,6 +56,8 @@ def specs(
     min_algs=1,
     levels=('alg', 'sv', 'val'),
     where=False,
+    own=False,
+    dotted=False,
 ):
     n_pkgs = draw(st.integers(1, max_pkgs))
     n_algs = draw(st.integers(min_algs, max_algs))
@@ -154,12 +156,26 @@ def specs(
             if style == 'registry'
             else []
         )
-    return {
+    spec = {
         'style': style,
         'pkgs': pkgs,
         'placeholders': placeholders,
         'algs': algs,
     }
+    if own and style == 'registry':
+        # the documented extension point of scan.advanced_factories: a task
+        # package of a class-scanned engine may bring its own factory function
+        spec['own'] = []
+        for i in range(n_pkgs):
+            here = sorted({a['kind'] for a in algs if a['pkg'] == i})
+            mine = (draw(st.lists(st.sampled_from(here), unique=True).map(sorted))
+                    if here and draw(st.integers(0, 1)) == 0 else [])
+            spec['own'].append(mine)
+            placeholders[i] = [k for k in placeholders[i] if k not in mine]
+    if dotted and draw(st.integers(0, 2)) == 0:
+        # the base package may sit below another package (org.engine)
+        spec['base_depth'] = 2
+    return spec
 
 
 # --------------------------------------------------------------------------
@@ -326,7 +342,12 @@ def sources(spec, base, viol=None):
             v.get(k) == val for k, val in where.items()
         )
 
-    files = {f'{base}/__init__.py': "'''synthetic algorithm engine'''\n"}
+    bdir = base.replace('.', '/')
+    files = {f'{bdir}/__init__.py': "'''synthetic algorithm engine'''\n"}
+    up = bdir
+    while '/' in up:
+        up = up.rsplit('/', 1)[0]
+        files[f'{up}/__init__.py'] = ''
     algs = spec['algs']
     for pi, pk in enumerate(spec['pkgs']):
         mine = [(i, a) for i, a in enumerate(algs) if a['pkg'] == pi]
@@ -566,6 +587,18 @@ def sources(spec, base, viol=None):
                 init.append('    ]')
                 init.append('')
         else:
+            for kind in (spec.get('own') or [[]] * len(spec['pkgs']))[pi]:
+                init += [
+                    '',
+                    f'def {kind}({_SIG[kind]}):',
+                    f'    import {base}.{pk}.bot as bot',
+                    '',
+                    '    return dawgie.base.{}({}, [{}])'.format(
+                        _BOT_CLASS[kind], _ARGS[kind],
+                        ', '.join(f'bot.Alg_{i}' for i, a in mine
+                                  if a['kind'] == kind)),
+                    '',
+                ]
             for ph in spec['placeholders'][pi]:
                 sig = _SIG.get(ph, '')
                 init += [
@@ -575,8 +608,8 @@ def sources(spec, base, viol=None):
                     '',
                 ]
         bot += _BOGUS
-        files[f'{base}/{pk}/__init__.py'] = '\n'.join(init) + '\n'
-        files[f'{base}/{pk}/bot.py'] = '\n'.join(bot) + '\n'
+        files[f'{bdir}/{pk}/__init__.py'] = '\n'.join(init) + '\n'
+        files[f'{bdir}/{pk}/bot.py'] = '\n'.join(bot) + '\n'
     return files
 
 
@@ -721,16 +754,19 @@ def loaded(spec, scan=True, viol=None):
 
     _SEQ[0] += 1
     base = f'vae{os.getpid()}x{_SEQ[0]}'
+    if spec.get('base_depth', 1) == 2:
+        base = f'vorg{os.getpid()}x{_SEQ[0]}.eng'
+    bdir = base.replace('.', os.sep)
     root = world.fresh_dir('ae')
     # packages without any algorithm are not written at all
     keep = dict(spec)
     write(keep, root, base, viol)
     for pi, pk in enumerate(spec['pkgs']):
         if not any(a['pkg'] == pi for a in spec['algs']):
-            world.rm(os.path.join(root, base, pk))
+            world.rm(os.path.join(root, bdir, pk))
     sys.path.insert(0, root)
     old = (dawgie.context.ae_base_path, dawgie.context.ae_base_package)
-    dawgie.context.ae_base_path = os.path.join(root, base)
+    dawgie.context.ae_base_path = os.path.join(root, bdir)
     dawgie.context.ae_base_package = base
     try:
         facs = None
@@ -743,7 +779,9 @@ def loaded(spec, scan=True, viol=None):
         yield Loaded(spec, base, root, facs)
     finally:
         dawgie.pl.scan.reset(base)
-        for k in [k for k in sys.modules if k == base]:
+        top = base.split('.')[0]
+        for k in [k for k in sys.modules
+                  if k in (base, top) or k.startswith(base + '.')]:
             del sys.modules[k]
         if root in sys.path:
             sys.path.remove(root)
